@@ -58,3 +58,43 @@ func H_value_store_load() {
 	nd_assert(r == -1 || r == 7, "C11.value.storeload.untorn")
 	nd_reach("C11.value.storeload")
 }
+
+// the FIRST write to an empty Value through Swap / CompareAndSwap, racing a Load:
+// the publication protocol (type word, then data word) must never expose a
+// half-written value
+func H_value_firstswap_load() {
+	var v Value
+	r, r1 := -2, -2
+	nd_go(func() { r1 = asInt(v.Swap(7)) })
+	nd_go(func() { r = asInt(v.Load()) })
+	dl := nd_join()
+	nd_assert(!dl, "C11.value.firstswapload.deadlock")
+	nd_assert(r1 == -1, "C11.value.firstswapload.old")
+	nd_assert(r == -1 || r == 7, "C11.value.firstswapload.untorn")
+	nd_reach("C11.value.firstswapload")
+}
+
+func H_value_firstswap_store() {
+	var v Value
+	r1 := -2
+	nd_go(func() { r1 = asInt(v.Swap(7)) })
+	nd_go(func() { v.Store(9) })
+	dl := nd_join()
+	f := asInt(v.Load())
+	nd_assert(!dl, "C11.value.firstswapstore.deadlock")
+	nd_assert((r1 == -1 && f == 9) || (r1 == 9 && f == 7), "C11.value.firstswapstore.linearizable")
+	nd_reach("C11.value.firstswapstore")
+}
+
+func H_value_firstcas_load() {
+	var v Value
+	r := -2
+	sw := false
+	nd_go(func() { sw = v.CompareAndSwap(nil, 7) })
+	nd_go(func() { r = asInt(v.Load()) })
+	dl := nd_join()
+	nd_assert(!dl, "C11.value.firstcasload.deadlock")
+	nd_assert(sw, "C11.value.firstcasload.swapped")
+	nd_assert(r == -1 || r == 7, "C11.value.firstcasload.untorn")
+	nd_reach("C11.value.firstcasload")
+}
